@@ -4,6 +4,7 @@ import (
 	"errors"
 	"io"
 	"net"
+	"sync"
 	"time"
 )
 
@@ -34,8 +35,12 @@ type ScriptConn struct {
 	ShortWrite bool
 	Closes     int
 	Deadlines  []time.Time
-	ReadCalls  int
-	ZeroReads  int
+	dlMu       sync.Mutex
+	// OnWrite, if set, runs at the start of every Write (before the octets are
+	// taken): a control point for "something happens as the peer is written to".
+	OnWrite   func()
+	ReadCalls int
+	ZeroReads int
 }
 
 var ErrWouldBlock = errors.New("simnet: script exhausted (read would block)")
@@ -101,6 +106,9 @@ func (c *ScriptConn) Read(p []byte) (int, error) {
 }
 
 func (c *ScriptConn) Write(p []byte) (int, error) {
+	if c.OnWrite != nil {
+		c.OnWrite()
+	}
 	if c.Closes > 0 {
 		return 0, net.ErrClosed
 	}
@@ -115,15 +123,17 @@ func (c *ScriptConn) Write(p []byte) (int, error) {
 	return n, err
 }
 
-func (c *ScriptConn) Close() error                  { c.Closes++; return nil }
-func (c *ScriptConn) LocalAddr() net.Addr           { return addr("script") }
-func (c *ScriptConn) RemoteAddr() net.Addr          { return addr("script-peer") }
-func (c *ScriptConn) SetDeadline(t time.Time) error { c.Deadlines = append(c.Deadlines, t); return nil }
-func (c *ScriptConn) SetReadDeadline(t time.Time) error {
+func (c *ScriptConn) Close() error                       { c.Closes++; return nil }
+func (c *ScriptConn) LocalAddr() net.Addr                { return addr("script") }
+func (c *ScriptConn) RemoteAddr() net.Addr               { return addr("script-peer") }
+func (c *ScriptConn) SetDeadline(t time.Time) error      { return c.noteDeadline(t) }
+func (c *ScriptConn) SetReadDeadline(t time.Time) error  { return c.noteDeadline(t) }
+func (c *ScriptConn) SetWriteDeadline(t time.Time) error { return c.noteDeadline(t) }
+
+// (deadline calls may come from a goroutine of the code under test)
+func (c *ScriptConn) noteDeadline(t time.Time) error {
+	c.dlMu.Lock()
 	c.Deadlines = append(c.Deadlines, t)
-	return nil
-}
-func (c *ScriptConn) SetWriteDeadline(t time.Time) error {
-	c.Deadlines = append(c.Deadlines, t)
+	c.dlMu.Unlock()
 	return nil
 }
